@@ -303,7 +303,9 @@ def name_str(k):
     scripts are legal and common)"""
     if not k:
         return ""
-    return ("nm\u00f6%d" if k % 7 == 3 else "\u30b5\u30fc\u30d0%d" if k % 7 == 5 else "nm%d") % k
+    # the spelling depends on the first digit, so that one name being a proper prefix of another (3 / 31, 1 / 10) survives in every spelling
+    d = str(k)[0]
+    return ("nm\u00f6%d" if d == "3" else "\u30b5\u30fc\u30d0%d" if d == "5" else "nm%d") % k
 
 
 def name_num(s):
